@@ -14,7 +14,8 @@ META = dict(
          "interleavings of bids (equal, barely improving, just short, far off, wrong denomination, unknown auction), hook runs and time steps "
          "for 2 bidders and every auction kind x generation, with and without token-mint data; each generated transition is executed on the real "
          "code and TLC checks code step = spec step and the C11 formulas (custody = standing bids, improvement by the bid factor, refund of the "
-         "outbid bidder in the same step, exactly the winner receives the lot, own deposit only, recorded total = sum of deposits, custody keeps "
+         "outbid bidder in the same step, every way an auction ends - regular close: exactly the winner receives the lot; emergency shutdown "
+         "of the app: the standing bidder is made whole -, own deposit only, recorded total = sum of deposits, custody keeps "
          "the outstanding deposits). Seeded behaviours add 3 actors, random configurations, both generations interleaved and automatic fills "
          "by Dutch auctions. Exhaustive for the bounded models, sampled beyond them.",
     note="Trusted: TLC/Json module, the projection functions of harness/fam/english, bank/store semantics. Generation-1 begin blocker is called "
@@ -28,9 +29,9 @@ ENGLISH_INV = "InvCustodyCovers InvCustodyExact InvNetFeesNonNeg InvCollectorBac
 
 def _english_cfgs(tier):
     """(name, constants) of the MC_English runs."""
-    def k(gens, flag, generic, tm, nf0, maxbids, maxauc, maxt, bidders='{"u1", "u2"}'):
-        return ('Gens = %s  Flag = "%s"  Generic = %s  Tm0 = %s  Nf0 = %d  Fund = 30  MaxBids = %d  MaxAuc = %d  MaxT = %d  Bidders = %s  Emit = TRUE'
-                % (gens, flag, generic, tm, nf0, maxbids, maxauc, maxt, bidders))
+    def k(gens, flag, generic, tm, nf0, maxbids, maxauc, maxt, bidders='{"u1", "u2"}', esm="FALSE"):
+        return ('Gens = %s  Flag = "%s"  Generic = %s  Tm0 = %s  Esm = %s  Nf0 = %d  Fund = 30  MaxBids = %d  MaxAuc = %d  MaxT = %d  Bidders = %s  Emit = TRUE'
+                % (gens, flag, generic, tm, esm, nf0, maxbids, maxauc, maxt, bidders))
     if tier == "quick":
         return [("g1-surplus", k("{1}", "surplus", "FALSE", "TRUE", 45, 2, 1, 140)),
                 ("g1-debt", k("{1}", "debt", "FALSE", "TRUE", 5, 2, 1, 140)),
@@ -39,7 +40,9 @@ def _english_cfgs(tier):
                 ("g2-generic", k("{2}", "none", "TRUE", "TRUE", 45, 2, 1, 420)),
                 ("g2-surplus-notm", k("{2}", "surplus", "FALSE", "FALSE", 45, 2, 1, 420)),
                 ("g1-debt-notm", k("{1}", "debt", "FALSE", "FALSE", 5, 1, 1, 140)),
-                ("g2-dist", k("{2}", "dist", "FALSE", "TRUE", 45, 1, 1, 420))]
+                ("g2-dist", k("{2}", "dist", "FALSE", "TRUE", 45, 1, 1, 420)),
+                ("g1-surplus-esm", k("{1}", "surplus", "FALSE", "TRUE", 45, 1, 1, 140, esm="TRUE")),
+                ("g1-debt-esm", k("{1}", "debt", "FALSE", "TRUE", 5, 1, 1, 140, esm="TRUE"))]
     return [("g1-surplus", k("{1}", "surplus", "FALSE", "TRUE", 45, 3, 1, 140)),
             ("g1-debt", k("{1}", "debt", "FALSE", "TRUE", 5, 3, 1, 140)),
             ("g2-surplus", k("{2}", "surplus", "FALSE", "TRUE", 45, 2, 2, 620)),
@@ -53,6 +56,9 @@ def _english_cfgs(tier):
             ("g12-surplus", k("{1, 2}", "surplus", "FALSE", "TRUE", 45, 1, 2, 420)),
             ("g12-debt", k("{1, 2}", "debt", "FALSE", "TRUE", 5, 1, 2, 420)),
             ("g2-dist", k("{2}", "dist", "FALSE", "TRUE", 45, 1, 1, 420)),
+            ("g1-surplus-esm", k("{1}", "surplus", "FALSE", "TRUE", 45, 2, 1, 140, esm="TRUE")),
+            ("g1-debt-esm", k("{1}", "debt", "FALSE", "TRUE", 5, 2, 1, 140, esm="TRUE")),
+            ("g12-surplus-esm", k("{1, 2}", "surplus", "FALSE", "TRUE", 45, 1, 1, 420, esm="TRUE")),
             ("g2-surplus-3", k("{2}", "surplus", "FALSE", "TRUE", 35, 2, 1, 420, '{"u1", "u2", "u3"}'))]
 
 
@@ -81,11 +87,8 @@ def _produce(d, tier, seed):
     out["A"] = dict(mc=mca, fails=tr["fails"], stats=tr["stats"], distinct=tr.get("distinct"), log="a.ndjson")
     # ---- world B: limit bids
     tb = os.path.join(d, "TB.txt")
-    kb = 'Fixed = FALSE  Bidders = {"u1", "u2"}  DepAmts = {10, 25}  Prems = {2, 5}  MaxDeps = %d  Fund = 60  Emit = TRUE' % (2 if quick else 3)
-    mcb = [_mc(d, "MC_LimitBid", "code", kb, "InvTotal InvNonNeg InvCustody", "StateBound", tb)]
-    # design-level result for the repaired withdraw (no dump): the invariants hold without the deviation guard
-    kf = 'Fixed = TRUE  Bidders = {"u1", "u2"}  DepAmts = {10, 25}  Prems = {2, 5}  MaxDeps = 2  Fund = 60  Emit = FALSE'
-    mcb.append(_mc(d, "MC_LimitBid", "fixed", kf, "InvTotal InvNonNeg InvCustody", "StateBound", None))
+    kb = 'Bidders = {"u1", "u2"}  DepAmts = {10, 25}  Prems = {2, 5}  MaxDeps = %d  Fund = 60  Emit = TRUE' % (2 if quick else 3)
+    mcb = [_mc(d, "MC_LimitBid", "book", kb, "InvTotal InvNonNeg InvCustody", None, tb)]
     lb = os.path.join(d, "b.ndjson")
     runs, steps = (30, 80) if quick else (250, 120)
     vlib.run_vh(["english", "--world", "B", "--tfile", tb, "--out", lb, "--seed", str(seed), "--runs", str(runs), "--steps", str(steps)], timeout=3000)
@@ -151,6 +154,8 @@ def run(c):
     sa, sb = A["stats"], B["stats"]
     need = dict(acceptedBids=sa.get("acceptedBids", 0), outbids=sa.get("outbids", 0), rejectedBids=sa.get("rejectedBids", 0),
                 closesGen1=sa.get("closesGen1", 0), closesGen2=sa.get("closesGen2", 0), noTokenMintHooks=sa.get("noTokenMintHooks", 0),
+                shutdownEndsWithBid=sa.get("shutdownEndsWithBid", 0), shutdownEndsNoBid=sa.get("shutdownEndsNoBid", 0),
+                shutdownEndsSurplus=sa.get("shutdownEndsSurplus", 0), shutdownEndsDebt=sa.get("shutdownEndsDebt", 0),
                 deposits=sb.get("deposits", 0), cancels=sb.get("cancels", 0), withdraws=sb.get("withdraws", 0),
                 withdrawOver=sb.get("withdrawOver", 0), withdrawOtherDenom=sb.get("withdrawOtherDenom", 0),
                 fillsExact=sb.get("fillsExact", 0), fillsOver=sb.get("fillsOver", 0), fillsUnder=sb.get("fillsUnder", 0))
@@ -171,4 +176,5 @@ def run(c):
              "plus seeded behaviours (3 actors, random configurations, both generations interleaved, automatic fills); each log node is a TLC state"),
         assumptions=["generation-1 auction.BeginBlocker is called directly (it is not wired in app.go)",
                      "the generic generation-2 English auction is opened through the exported keeper entry point CreateLockedVault",
-                     "token-mint supply of the governance token exceeds every burn (the burn guard CurrentSupply - amount > 0 is never hit)"])
+                     "token-mint supply of the governance token exceeds every burn (the burn guard CurrentSupply - amount > 0 is never hit)",
+                     "the app's emergency shutdown is executed through the esm keeper's status setter (the cool-off end lies beyond every behaviour)"])
